@@ -165,48 +165,144 @@ def symbolic_env(f, upto):
     return ev
 
 
+class Q:
+    """symbolic monomial  c * prod(symbol ** exponent)  (coefficients of Hamiltonian terms are products / quotients of parameters)"""
+
+    _abstract = True
+
+    def __init__(self, c=1, syms=None):
+        from fractions import Fraction
+
+        self.c = Fraction(c)
+        self.syms = {k: v for k, v in (syms or {}).items() if v != 0}
+
+    @staticmethod
+    def of(name):
+        return Q(1, {name: 1})
+
+    def _lift(self, o):
+        from fractions import Fraction
+
+        if isinstance(o, Q):
+            return o
+        if isinstance(o, (int, float)) and not isinstance(o, bool):
+            return Q(Fraction(o).limit_denominator(10**6))
+        raise TypeError(f"unsupported operand {type(o).__name__} for a symbolic coefficient")
+
+    def __mul__(self, o):
+        o = self._lift(o)
+        syms = dict(self.syms)
+        for k, v in o.syms.items():
+            syms[k] = syms.get(k, 0) + v
+        return Q(self.c * o.c, syms)
+
+    __rmul__ = __mul__
+
+    def __truediv__(self, o):
+        o = self._lift(o)
+        return self * Q(1 / o.c, {k: -v for k, v in o.syms.items()})
+
+    def __rtruediv__(self, o):
+        return self._lift(o) / self
+
+    def __neg__(self):
+        return Q(-self.c, self.syms)
+
+    def __pos__(self):
+        return self
+
+    def __add__(self, o):
+        raise TypeError("sums of symbolic coefficients are outside the rule (a term's coefficient is expected to be a monomial)")
+
+    __radd__ = __sub__ = __rsub__ = __add__
+
+    def __eq__(self, o):
+        if isinstance(o, (int, float)) and not self.syms:
+            return self.c == o
+        return isinstance(o, Q) and (self.c, self.syms) == (o.c, o.syms)
+
+    def __ne__(self, o):
+        return not self.__eq__(o)
+
+    def __hash__(self):
+        return hash((self.c, tuple(sorted(self.syms.items()))))
+
+    def __repr__(self):
+        num = [k if v == 1 else f"{k}^{v}" for k, v in sorted(self.syms.items()) if v > 0]
+        den = [k if v == -1 else f"{k}^{-v}" for k, v in sorted(self.syms.items()) if v < 0]
+        s_ = ("-" if self.c < 0 else "") + (str(abs(self.c)) if abs(self.c) != 1 or not num else "") + "*".join(num)
+        return s_ + ("/" + "/".join(den) if den else "")
+
+
 def check_terms(prog, ctx):
+    """R19.1 by abstract evaluation: each local builder is evaluated with symbolic parameters (per-site pairs, and scalars, which the
+    builder must broadcast) and symbolic coordinations; the list of (coefficient, operators) it hands to build_local_fermionic_array
+    is recorded; every operator is assigned the site in whose basis it occurs."""
+    from engine.absarray import evaluator
+    from engine.minieval import Obj, Raised, Unsupported
+
     rid = "R19.1"
     for fq in BUILDERS:
         f = prog.func(fq)
-        ops = _op_sites(ctx, f)
-        coefs = _coef_sites(f)
-        terms = [a for a in walk_own(f.node) if isinstance(a, ast.Assign) and src(a.targets[0]) == "terms"]
-        ctx.need(len(terms) == 1 and isinstance(terms[0].value, (ast.Tuple, ast.List)), f"{f.qualname}: literal `terms` not found")
+        params = f.all_params()
         n_onsite = 0
-        ev = symbolic_env(f, terms[0])
-        for t in terms[0].value.elts:
-            ctx.need(isinstance(t, ast.Tuple) and len(t.elts) == 2, f"{f.qualname}: term {src(t)} is not (coeff, ops)")
-            coeff, opl = t.elts
-            sites = set()
-            for o in opl.elts:
-                base = o.value if isinstance(o, ast.Attribute) and o.attr == "dag" else o
-                ctx.need(isinstance(base, ast.Name) and base.id in ops, f"{f.qualname}: operator {src(o)} of unknown site")
-                sites.add(ops[base.id])
-            if len(sites) == 1:
-                k = next(iter(sites))
-                n_onsite += 1
-                vals = ev(coeff)
-                ok = True
-                why = ""
-                for v in vals:
-                    if v.opaque or not isinstance(v.base, tuple):
-                        ok, why = False, f"cannot be reduced to +-X / coordinations[k] (it is `{v}`)"
-                    elif v.divs != (k,):
-                        ok, why = False, (f"is divided by {['coordinations[%d]' % d for d in v.divs] or 'nothing'}, "
-                                          f"not exactly once by the coordination of its own site coordinations[{k}]")
-                    elif v.base[1] not in (k, None):
-                        ok, why = False, f"uses component {v.base[1]} of `{v.base[0]}`, which is not site {k}'s coefficient"
-                    if not ok:
-                        break
-                ctx.check(ok, rid, f, t, src(t)[:90],
-                          f"on-site term on site {k}: coefficient `{src(coeff)}` = {sorted(map(repr, vals))} "
-                          + ("is that site's coefficient divided once by that site's coordination" if ok else why))
-            else:
-                vals = ev(coeff)
-                ok = all(not v.divs for v in vals) and "coordinations" not in src(coeff)
-                ctx.check(ok, rid, f, t, src(t)[:90], f"two-site term: coefficient `{src(coeff)}` is not divided by a coordination")
-        ctx.need(n_onsite >= 2, f"{f.qualname}: fewer than two on-site terms found")
+        for variant in ("per-site", "scalar"):
+            rec = {}
+
+            def recorder(terms, bases, *a, _rec=rec, **kw):
+                _rec["terms"], _rec["bases"] = list(terms), bases
+                return ("array",)
+
+            kw = {"coordinations": (Q.of("z0"), Q.of("z1"))}
+            site_syms = {0: set(), 1: set()}
+            for p_ in params:
+                if p_ in ("t", "V"):
+                    kw[p_] = Q.of(p_)
+                elif p_ in ("U", "mu"):
+                    if variant == "per-site":
+                        kw[p_] = (Q.of(p_ + "0"), Q.of(p_ + "1"))
+                        site_syms[0].add(p_ + "0")
+                        site_syms[1].add(p_ + "1")
+                    else:
+                        kw[p_] = Q.of(p_)
+                        site_syms[0].add(p_)
+                        site_syms[1].add(p_)
+            ev = evaluator(prog, extra={"build_local_fermionic_array": recorder})
+            try:
+                ev.call(f, ["Z2"], kw)
+            except Unsupported as e:
+                raise AnalysisError(f"{f.qualname} outside the evaluable sub-language: {e}")
+            except (Raised, KeyError, TypeError, AttributeError, ValueError, IndexError) as e:
+                ctx.check(False, rid, f, f.node, f"{variant}: fails", f"{f.qualname} ({variant} parameters) fails: {type(e).__name__}: {getattr(e, 'what', e)}")
+                continue
+            ctx.need("terms" in rec, f"{f.qualname}: build_local_fermionic_array is never reached")
+            # site of an operator = the basis in which its label occurs
+            site_of = {}
+            for k, basis in enumerate(rec["bases"]):
+                for state in basis:
+                    for op in state:
+                        site_of[repr(op.fields.get("_label"))] = k
+            for (coeff, ops) in rec["terms"]:
+                sites = {site_of.get(repr(o.fields.get("_label"))) for o in ops}
+                ctx.need(None not in sites, f"{f.qualname}: a term uses an operator that occurs in no basis")
+                label = f"{variant}: {coeff!r} x {[(o.fields.get('_label'), '+' if o.fields.get('_dual') else '-') for o in ops]}"
+                if not isinstance(coeff, Q):
+                    ctx.check(False, rid, f, f.node, label[:90], f"{f.qualname}: coefficient {coeff!r} is not built from the parameters")
+                    continue
+                zs = {k_: v for k_, v in coeff.syms.items() if k_ in ("z0", "z1")}
+                rest = {k_: v for k_, v in coeff.syms.items() if k_ not in ("z0", "z1")}
+                if len(sites) == 1:
+                    k = next(iter(sites))
+                    n_onsite += 1
+                    ok = abs(coeff.c) == 1 and zs == {f"z{k}": -1} and len(rest) == 1 and list(rest.values()) == [1] and set(rest) <= site_syms[k]
+                    ctx.check(ok, rid, f, f.node, label[:90],
+                              f"{f.qualname} ({variant}): on-site term on site {k} has coefficient {coeff!r}: "
+                              + ("that site's coefficient divided once by that site's coordination" if ok else
+                                 f"expected +-X{k} / z{k} with X{k} one of {sorted(site_syms[k])}"))
+                else:
+                    ok = not zs
+                    ctx.check(ok, rid, f, f.node, label[:90], f"{f.qualname} ({variant}): two-site term with coefficient {coeff!r} is not divided by a coordination")
+        ctx.need(n_onsite >= 4, f"{f.qualname}: fewer than two on-site terms per variant found")
         d = f.defaults().get("coordinations")
         ctx.check(d is not None and src(d) == "(1, 1)", rid, f, f.node, "default coordinations", "coordinations default to (1, 1) (a single bond)")
     # TFIM (dense builder)
